@@ -43,6 +43,9 @@ func NewValuesByString(m []meta.Leafable, objs ...string) ([]val.Value, error) {
 
 func NewValues(m []meta.Leafable, objs ...interface{}) ([]val.Value, error) {
 	var err error
+	if len(objs) > len(m) {
+		return nil, fmt.Errorf("%d values for %d leaves", len(objs), len(m))
+	}
 	vals := make([]val.Value, len(m))
 	for i, obj := range objs {
 		vals[i], err = NewValue(m[i].Type(), obj)
